@@ -83,7 +83,7 @@ impl Prop for C09 {
         "C09"
     }
     fn rule(&self) -> String {
-        "pairs (sugared module, hand-expanded module) built by the model: (a) value references through chains of 1..4 references and named numbers of a referenced type as constraint endpoints of type assignments and components; (b) COMPONENTS OF at every position of a component list of length <=3, with/without an extension marker in the referencing and in the referenced type, two levels deep, SEQUENCE and SET; (c) parameterized types with 1..3 type/value parameters instantiated 1..3 times; (d) selection of every alternative of a 1..3-alternative CHOICE; (e) a fixed-type field of an object class (INTEGER, BOOLEAN, constrained OCTET STRING, type reference); further forms: value references as string / bit-string sizes, in alternatives, OF elements, nested components and extensible ranges; parameterized SEQUENCE OF, parameter used twice with a constrained argument, value parameters as SIZE and as both range ends, inline constructed and reference arguments, instantiation as a component; selection of alternatives whose type is a reference, tagged, or SEQUENCE OF reference; combinations in which an expansion step (selection, COMPONENTS OF, instantiation, class field) copies a constraint that itself contains a value reference or named number, with both names drawn from both pools; each also with the referenced definitions in a second module and imported; every pair × every assignment of the names involved to the pools {sorts-before, sorts-after} relative to the referencing name × every textual order of the (<=4) assignments (quick: rotations and reversal) × tagging default {AUTOMATIC, EXPLICIT}. Oracle: differential — Ok/Err class and warning count agree and the syn projection (minus docs) of every target type and of the anonymous items it hoists is identical. Non-trivial: both modules compiled and were compared.".into()
+        "pairs (sugared module, hand-expanded module) built by the model: (a) value references through chains of 1..4 references (also chains of 1..3 references whose last link is written as a named number of the governing type, X.680 19.10) and named numbers of a referenced type as constraint endpoints of type assignments and components; (b) COMPONENTS OF at every position of a component list of length <=3, with/without an extension marker in the referencing and in the referenced type, two levels deep, SEQUENCE and SET; (c) parameterized types with 1..3 type/value parameters instantiated 1..3 times; (d) selection of every alternative of a 1..3-alternative CHOICE; (e) a fixed-type field of an object class (INTEGER, BOOLEAN, constrained OCTET STRING, type reference); further forms: value references as string / bit-string sizes, in alternatives, OF elements, nested components and extensible ranges; parameterized SEQUENCE OF, parameter used twice with a constrained argument, value parameters as SIZE and as both range ends, inline constructed and reference arguments, instantiation as a component; selection of alternatives whose type is a reference, tagged, or SEQUENCE OF reference; combinations in which an expansion step (selection, COMPONENTS OF, instantiation, class field) copies a constraint that itself contains a value reference or named number, with both names drawn from both pools; each also with the referenced definitions in a second module and imported; every pair × every assignment of the names involved to the pools {sorts-before, sorts-after} relative to the referencing name × every textual order of the (<=4) assignments (quick: rotations and reversal) × tagging default {AUTOMATIC, EXPLICIT}. Oracle: differential — Ok/Err class and warning count agree and the syn projection (minus docs) of every target type and of the anonymous items it hoists is identical. Non-trivial: both modules compiled and were compared.".into()
     }
     fn enumerate(&self, tier: Tier, _seed: u64) -> Vec<Case> {
         let mut out: Vec<Case> = vec![];
@@ -168,8 +168,36 @@ impl Prop for C09 {
                 push("named-number", format!("named-number|names={gov}|shared-names|ctx={ctx}"), s2, e2, vec!["Mid"]);
             }
         }
+        // value-reference chains whose last link is written as a named number / enumeral of the governing type
+        // (X.680 19.10): `v1 Lvl ::= hi`, `v2 Lvl ::= v1`, used as a constraint endpoint
+        for chain in 1..=3usize {
+            for pool in ["a", "z"] {
+                for gov in ["Aaa", "Zzz"] {
+                    let names: Vec<String> = (1..=chain).map(|i| format!("{pool}{pool}val{i}")).collect();
+                    let mut defs = vec![format!("{gov} ::= INTEGER {{ lo(2), hi(9) }}"), format!("{} {gov} ::= hi", names[0])];
+                    for i in 1..chain {
+                        defs.push(format!("{} {gov} ::= {}", names[i], names[i - 1]));
+                    }
+                    let used = names.last().unwrap().clone();
+                    for (ctx, sug, exp) in [
+                        ("assign-range", format!("Mid ::= {gov} (0..{used})"), format!("Mid ::= {gov} (0..9)")),
+                        ("assign-single", format!("Mid ::= {gov} ({used})"), format!("Mid ::= {gov} (9)")),
+                        ("assign-min", format!("Mid ::= {gov} ({used}..20)"), format!("Mid ::= {gov} (9..20)")),
+                        ("component", format!("Mid ::= SEQUENCE {{ f {gov} (0..{used}), g INTEGER (0..{used}) }}"), format!("Mid ::= SEQUENCE {{ f {gov} (0..9), g INTEGER (0..9) }}")),
+                        ("size", format!("Mid ::= SEQUENCE (SIZE (1..{used})) OF BOOLEAN"), "Mid ::= SEQUENCE (SIZE (1..9)) OF BOOLEAN".to_string()),
+                        ("plain-integer", format!("Mid ::= INTEGER (0..{used})"), "Mid ::= INTEGER (0..9)".to_string()),
+                    ] {
+                        let mut s = defs.clone();
+                        s.push(sug);
+                        let mut e = defs.clone();
+                        e.push(exp);
+                        push("valref", format!("valref|chain-to-named-number={chain}|names={pool}|gov={gov}|ctx={ctx}"), s, e, vec!["Mid"]);
+                    }
+                }
+            }
+        }
         // ---- (b) COMPONENTS OF
-        let own = ["o0 BOOLEAN", "o1 NULL OPTIONAL", "o2 UTF8String"];
+        let own =["o0 BOOLEAN", "o1 NULL OPTIONAL", "o2 UTF8String"];
         for kind in ["SEQUENCE", "SET"] {
             for pool in ["Aaa", "Zzz"] {
                 for ref_marker in [false, true] {
